@@ -16,14 +16,30 @@ from .code_writer import CodeWriter
 from .documentation_writer import DocumentationBlock, DocumentationWriter
 
 
+# Characters str.splitlines() treats as line boundaries; the code writers split rendered text into lines
+_LINE_BREAKERS = ("\r\n", "\n", "\r", "\x0b", "\x0c", "\x1c", "\x1d", "\x1e", "\x85", "\u2028", "\u2029")
+
+
 def _comment_text(text: str) -> str:
-    """Flatten spec text for a trailing `# comment`: a newline, a carriage return or a NUL would end the comment."""
-    return text.replace("\r\n", " ").replace("\n", " ").replace("\r", " ").replace("\x00", " ")
+    """Flatten spec text for a trailing `# comment`: any line boundary (or a NUL) would end the comment."""
+    for breaker in _LINE_BREAKERS:
+        text = text.replace(breaker, " ")
+    return text.replace("\x00", " ")
 
 
-def _py_str(value: object) -> str:
-    """Render spec text as a double-quoted Python string literal (JSON escapes are valid Python escapes)."""
-    return json.dumps(str(value), ensure_ascii=False)
+def py_string_literal(value: object) -> str:
+    """Render spec text as a double-quoted Python string literal.
+
+    JSON escapes are valid Python escapes with the same meaning; non-ASCII text is kept readable, except for
+    the few characters that str.splitlines() treats as line boundaries (they would split the literal).
+    """
+    literal = json.dumps(str(value), ensure_ascii=False)
+    for breaker, escaped in (("\x85", "\\x85"), ("\u2028", "\\u2028"), ("\u2029", "\\u2029")):
+        literal = literal.replace(breaker, escaped)
+    return literal
+
+
+_py_str = py_string_literal
 
 
 class PythonConstructRenderer:
